@@ -88,6 +88,9 @@ pub fn draw_wplan(ctx: &mut Ctx, doc_len: usize) -> WPlan {
         plan.fault_id = 1 + t.draw(1000) as u32;
         plan.kind = Some(HARD_KINDS[t.below(HARD_KINDS.len())]);
     }
+    if plan.fail_at.is_some() {
+        plan.flush_ok_after_write_fault = ctx.tape.flag();
+    }
     plan
 }
 
